@@ -142,14 +142,15 @@ var propertyClauses = map[string]clauseInfo{
 	"C18": {
 		decided: []string{
 			"every call through a child-count / child function value uses opts.ChildCount / opts.Child when non-nil and the defaults otherwise",
-			"Pre is called only on frames not yet expanded and Post only on post frames, each with the callback stored in opts",
-			"the cursor handed to a callback equals the cursor of the frame just popped",
+			"Pre is called only on frames not yet expanded and Post only on post frames, each with the callback stored in opts; the cursor handed to a callback equals the cursor of the frame just popped",
 			"at every callback the cursor is the root cursor (zero parent, negative index) or satisfies Child(Parent(), Index()) == Node() with 0 <= Index() < ChildCount(Parent()), for the child functions in force",
+			"step contract of the explicit stack (two-state loop obligations): each iteration pops the top frame and leaves the rest of the stack unchanged; exactly one callback is made when the one for the frame's phase is configured; a post frame pushes nothing; a pre frame whose Pre returned false pushes nothing (pruning); otherwise the post frame of the node is pushed followed by the frames of its children n-1..0 with index, parent, node = Child(node, i) and block = the node itself if it is a block, else the frame's block (nearest enclosing block); a false Post leaves the loop at once (abort)",
+			"with the code-independent lemma L-DFS (DESIGN appendix C) the step contract is: Pre in document order, descent exactly when Pre returned true, Post after the children, each reachable node once",
 			"Walk writes nothing reachable from its arguments (frame)",
 		},
 		notDecided: []string{
-			"document order, exactly-once, pruning and abort (step contract + lemma L-DFS of DESIGN 7.18) are not generated",
-			"ParentBlock() is the nearest enclosing block",
+			"lemma L-DFS itself (a statement about stack machines, independent of /repo) is a paper proof, not machine-checked",
+			"termination relies on the tree being finite and acyclic",
 		},
 	},
 }
